@@ -771,6 +771,13 @@ impl Entry<EntryIncremental, EntryNew> {
                         cnf_ent.add_ava(Attribute::Class, EntryClass::Recycled.into());
                         cnf_ent.add_ava(Attribute::Class, EntryClass::Conflict.into());
 
+                        // The conflict entry is a new entry made by this change. Every attribute
+                        // state it carries must be part of this change, else a replica that has
+                        // already seen the original creation is never sent the attributes that
+                        // kept their original change id, and holds a different conflict entry.
+                        cnf_ent.valid.ecstate =
+                            EntryChangeState::new_without_schema(cid, &cnf_ent.attrs);
+
                         // Bypass add_ava here so that we don't update the ecstate with the
                         // metadata of these attrs.
                         // Setup the last changed to now.
